@@ -482,7 +482,7 @@ def dmax_few_neutrals_upto(p, n, z, mid_upto):
     return rmax(lambda mid: dmax_row_few(p, n, z, mid), 0, mid_upto)
 
 
-@memo
+@define('dmax_spec', ['int', 'int', 'int', 'int'], 'real')
 def dmax_spec(p, n, z, N):
     """largest delta among the documented family of maximally segregated arrangements of (p, n, z), N = p+n+z"""
     return ite(p + n == 0, Fraction(0),
